@@ -936,6 +936,121 @@ def prepare_caller_state(ttns, case):
             ttns.move_orthogonalization_center(f"n{centre}", mode=modes[mode])
 
 
+def trunc_settings(trunc, fixed):
+    """case notation of the truncation settings -> (SVDParameters | None, keyword arguments of BUGConfig, the tuple the
+    reference selection rule `n_keep` reads)."""
+    svd = None
+    bug_kwargs = {}
+    if trunc and not fixed:
+        from pytreenet.util.tensor_splitting import SVDParameters
+        mb = INF if trunc[0] == "inf" else trunc[0]
+        rel = NEG_INF if trunc[1] == "-inf" else trunc[1]
+        tot = NEG_INF if trunc[2] == "-inf" else trunc[2]
+        sum_renorm = bool(trunc[4]) if len(trunc) > 4 else True
+        trunc_t = (mb, rel, tot, bool(trunc[3]), sum_renorm)
+        svd = SVDParameters(max_bond_dim=mb, rel_tol=rel, total_tol=tot)
+        bug_kwargs["sum_trunc"] = bool(trunc[3])
+        if len(trunc) > 4:
+            bug_kwargs["sum_renorm"] = sum_renorm
+    else:
+        trunc_t = (INF, NEG_INF, NEG_INF, False, True)
+    return svd, bug_kwargs, trunc_t
+
+
+def reconfigure(ev, ops, cur, case, ttns, ids, dims, fixed):
+    """The caller reconfigures the evolution object between two steps through its PUBLIC attributes / setters; `cur` (the
+    harness's own record: step size, final time, dense Hamiltonian, truncation settings) is updated alongside from the
+    documentation of the operation, never read back from the object.  Operations:
+      ["steps_const", k]   set_num_time_steps_constant_final_time(k): step size := final time / k; k <= 0 is rejected
+                           (raises) and must leave the step size as it was
+      ["steps", k]         set_num_time_steps(k): final time := k * step size, the step size stays
+      ["ham_inplace", i, f]   the caller scales the tensor of node i of the TTNO it handed in IN PLACE (a quench): H := f H
+      ["ham_replace", i, f]   the same through TTNO.replace_tensor on the TTNO the caller handed in
+      ["ham_assign", seed]    ev.hamiltonian := a TTNO of another random Hermitian Hamiltonian
+      ["ham_assign_copy", f]  ev.hamiltonian := a deep copy of the current TTNO with the root tensor scaled by f
+      ["config", trunc, flip] ev.config := a new configuration object (rank-adaptive: truncation settings `trunc`;
+                           `flip`: the other copy strategy)
+      ["config_field", name, value]  a field of ev.config is assigned in place (max_bond_dim / deep)
+    Returns a log of what happened (rejected calls)."""
+    log = []
+    for op in ops:
+        kind = op[0]
+        if kind == "steps_const":
+            k = op[1]
+            try:
+                ev.set_num_time_steps_constant_final_time(k)
+                raised = None
+            except Exception as e:  # noqa   (a rejected call: the object has to stay usable, step size unchanged)
+                raised = type(e).__name__
+            if k > 0:
+                if raised:
+                    raise RuntimeError(f"set_num_time_steps_constant_final_time({k}) raised {raised}")
+                cur["dt"] = cur["T"] / k
+            log.append((kind, k, raised))
+        elif kind == "steps":
+            ev.set_num_time_steps(op[1])
+            cur["T"] = op[1] * cur["dt"]
+        elif kind in ("ham_inplace", "ham_replace"):
+            nid = f"n{op[1]}"
+            f = float(op[2])
+            tt = cur["ttno"]
+            if kind == "ham_inplace":
+                t = tt.tensors[nid]
+                t *= f
+            else:
+                tt.replace_tensor(nid, f * tt.tensors[nid])
+            cur["H"] = f * cur["H"]
+            cur["changed"] = True
+        elif kind == "ham_assign":
+            r2 = random.Random(op[1])
+            ham2 = util.rand_ham(r2, ids, dims, case["nterms"], hermitian=True, max_support=case.get("support", 2),
+                                 coeffs=case.get("coeffs", False))
+            if not ham2.terms:
+                log.append((kind, "empty"))
+                continue
+            cur["H"] = util.dense_ham(ham2, ids, dims)
+            cur["ttno"] = TTNO.from_hamiltonian(copy.deepcopy(ham2), ttns)
+            ev.hamiltonian = cur["ttno"]
+            cur["changed"] = True
+        elif kind == "ham_assign_copy":
+            f = float(op[1])
+            tt = copy.deepcopy(cur["ttno"])
+            tt.replace_tensor("n0", f * tt.tensors["n0"])
+            cur["ttno"] = tt
+            ev.hamiltonian = tt
+            cur["H"] = f * cur["H"]
+            cur["changed"] = True
+        elif kind == "config":
+            from pytreenet.time_evolution.time_evolution import TimeEvoMode
+            if op[2]:
+                cur["deep"] = not cur["deep"]
+            if fixed:
+                from pytreenet.time_evolution.fixed_bug import FixedBUGConfig
+                ev.config = FixedBUGConfig(time_evo_mode=TimeEvoMode.EXPM, deep=cur["deep"])
+            else:
+                from pytreenet.time_evolution.bug import BUGConfig
+                from pytreenet.util.tensor_splitting import SVDParameters
+                svd, kw, tt = trunc_settings(op[1], False)
+                svd = svd or SVDParameters(max_bond_dim=INF, rel_tol=NEG_INF, total_tol=NEG_INF)
+                ev.config = BUGConfig(max_bond_dim=svd.max_bond_dim, rel_tol=svd.rel_tol, total_tol=svd.total_tol,
+                                      time_evo_mode=TimeEvoMode.EXPM, deep=cur["deep"], **kw)
+                cur["trunc_t"] = tt
+        elif kind == "config_field":
+            name, val = op[1], op[2]
+            if name == "max_bond_dim":
+                if fixed:
+                    continue
+                setattr(ev.config, name, val)
+                cur["trunc_t"] = (val,) + tuple(cur["trunc_t"][1:])
+            elif name == "deep":
+                ev.config.deep = bool(val)
+                cur["deep"] = bool(val)
+        else:
+            raise ValueError(f"unknown reconfiguration {op}")
+    cur["Hnorm"] = float(np.linalg.norm(cur["H"], 2))
+    return log
+
+
 def _run_case(case):
     """executed in a worker process: builds the inputs, runs the real classes, returns the observation."""
     rng = random.Random(case["seed"])
@@ -969,21 +1084,8 @@ def _run_case(case):
     ttno = TTNO.from_hamiltonian(copy.deepcopy(ham), ttns)
     fixed = case["method"] == "fbug"
     trunc = case.get("trunc")
-    svd = None
-    bug_kwargs = {}
-    if trunc and not fixed:
-        from pytreenet.util.tensor_splitting import SVDParameters
-        mb = INF if trunc[0] == "inf" else trunc[0]
-        rel = NEG_INF if trunc[1] == "-inf" else trunc[1]
-        tot = NEG_INF if trunc[2] == "-inf" else trunc[2]
-        sum_renorm = bool(trunc[4]) if len(trunc) > 4 else True
-        trunc_t = (mb, rel, tot, bool(trunc[3]), sum_renorm)
-        svd = SVDParameters(max_bond_dim=mb, rel_tol=rel, total_tol=tot)
-        bug_kwargs["sum_trunc"] = bool(trunc[3])
-        if len(trunc) > 4:
-            bug_kwargs["sum_renorm"] = sum_renorm
-    else:
-        trunc_t = (INF, NEG_INF, NEG_INF, False, True)
+    svd, bug_kwargs, trunc_t = trunc_settings(trunc, fixed)
+    reconf = case.get("reconf") or None
     dt = case["dt"]
     nsteps = case["nsteps"]
     Hnorm = float(np.linalg.norm(H, 2))
@@ -997,8 +1099,13 @@ def _run_case(case):
     for deep in (False, True):
         run = {"steps": [], "exception": None}
         ob["runs"][deep] = run
+        # history "the driver object is reconfigured between steps": every run gets its own TTNO object (the caller
+        # modifies it in place later on); `cur` is the harness's own record of what the object was told
+        ttno_run = copy.deepcopy(ttno) if reconf else ttno
+        cur = {"dt": dt, "T": dt * nsteps, "H": H, "Hnorm": Hnorm, "trunc_t": trunc_t, "ttno": ttno_run, "deep": deep,
+               "changed": False}
         try:
-            ev = util.make_evolution(case["method"], ttns, ham, ttno, dt, dt * nsteps, [], svd=svd,
+            ev = util.make_evolution(case["method"], ttns, ham, ttno_run, dt, dt * nsteps, [], svd=svd,
                                      bug_kwargs=dict(bug_kwargs, deep=deep))
         except Exception as e:  # noqa
             run["exception"] = f"constructor: {type(e).__name__}: {e}"
@@ -1018,6 +1125,22 @@ def _run_case(case):
             st["rtree"] = util.ttn_to_rtree(state0, {f"n{i}": i for i in range(n)})[0]
             st["dtree_coq"] = coq_dtree(state0, state0.root_id)
             st["pull_risk"] = eff_bond_after_recentring(state0)
+            if reconf:
+                ops = reconf.get(str(step), reconf.get(step)) or []
+                try:
+                    st["reconf_log"] = reconfigure(ev, ops, cur, case, ttns, ids, dims, fixed)
+                except Exception as e:  # noqa
+                    st["exception"] = f"reconfiguration {ops}: {type(e).__name__}: {e}"
+                    st["tb"] = [f.name for f in traceback.extract_tb(e.__traceback__)[-5:]]
+                    st["events"] = []
+                    run["exception"] = st["exception"]
+                    break
+                st["dt"] = cur["dt"]
+                st["dt_reported"] = float(ev.time_step_size)
+                st["trunc_t"] = cur["trunc_t"]
+                if cur["changed"]:
+                    st["H"] = cur["H"]
+                    st["Hnorm"] = cur["Hnorm"]
             tracer = Tracer()
             aug = {}
             o_trunc = bugmod.recursive_truncation
@@ -1081,14 +1204,14 @@ def _run_case(case):
             st["defect1p"] = isometry_defect_root(state1, True)
             st["same_object"] = state1 is state0
             # independent reference
-            ref = ref_bug_step(par, dlist, st["psi0"], H, dt, fixed, st["bonds0"])
+            ref = ref_bug_step(par, dlist, st["psi0"], cur["H"], cur["dt"], fixed, st["bonds0"])
             st["ref"] = ref
             if not fixed:
-                rt = ref_truncate(par, dlist, aug["psi"], trunc_t, aug["bonds"])
+                rt = ref_truncate(par, dlist, aug["psi"], cur["trunc_t"], aug["bonds"])
                 st["ref_trunc_of_lib_aug"] = rt
                 if ref.get("generic") and "psi1" in ref:
-                    st["ref_trunc"] = ref_truncate(par, dlist, ref["psi1"], trunc_t, ref["newrank"])
-        if case.get("reset") and not run["exception"]:
+                    st["ref_trunc"] = ref_truncate(par, dlist, ref["psi1"], cur["trunc_t"], ref["newrank"])
+        if case.get("reset") and not run["exception"] and not reconf:
             # history: reset_to_initial_state, then the first step again (no instrumentation)
             rs = {}
             run["reset"] = rs
@@ -1147,7 +1270,17 @@ class C09(Prop):
             "optionally a small max_bond_dim; the reference accumulates the discarded weight from the smallest value upwards and every "
             "tolerance of the oracle is relative to the norm of the state / of the Hamiltonian; a selection that flips when the singular "
             "values move by 3e-14 (relative) is a tie and skipped, and the inherited uncertainty of a kept subspace is followed down the "
-            "tree. non-trivial = at least 2 nodes; distinct by case content")
+            "tree. RECONFIGURED DRIVER OBJECT (histories): on trees with 2-6 nodes and generic bonds (so the step-equality clause applies), both "
+            "integrators, 1-3 steps, the evolution object is changed between steps (also before the first) through its public attributes / "
+            "setters: step size by set_num_time_steps_constant_final_time (also after set_num_time_steps moved the final time; calls with "
+            "k <= 0 are rejected / fail and must leave the step size as it was, the sequence goes on), Hamiltonian by scaling a tensor of the "
+            "TTNO the caller handed in IN PLACE (quench; factors incl. negative ones), by TTNO.replace_tensor, by assigning ev.hamiltonian "
+            "another random Hermitian Hamiltonian's TTNO or a modified deep copy, configuration by assigning ev.config a new object (other "
+            "truncation settings / other copy strategy) or a field of it (max_bond_dim, deep); every run of a case gets its own deep copy of "
+            "the TTNO; the harness keeps its own record of step size / dense Hamiltonian / truncation settings from the documented meaning "
+            "of each operation and every step is judged (all clauses: step equality with the dense scheme, spectra, every local propagation's "
+            "duration, conservation with respect to the CURRENT Hamiltonian, truncation by the CURRENT settings) against that record. "
+            "non-trivial = at least 2 nodes; distinct by case content")
     clauses = [
         ("F", "order: every node is evolved exactly once, in post-order (children fully before their parent, root last) (C09_bug_order*)"),
         ("F", "environment provenance: at the evolution of a non-root node the parent-side block consists of OLD tensors of the state re-centred "
@@ -1212,7 +1345,10 @@ class C09(Prop):
               "diagram evaluated on the caller's tensors (old bases) and the conjugated returned tensors (new bases)"),
         ("O", "fixed-rank Galerkin step never increases the norm: unitary after a contraction M = U_old^H U_new (Section with matrix-algebra laws as hypotheses)"),
         ("V", "step equality with the scheme, spectra of every projected Hamiltonian, conservation up to the discarded weight, saturated two-node "
-              "exactness, canonical root, bond limit, both copy strategies equal, caller's/parent's state untouched: dense reference + runtime monitors"),
+              "exactness, canonical root, bond limit, both copy strategies equal, caller's/parent's state untouched: dense reference + runtime monitors; "
+              "also for every step taken after the evolution object was reconfigured through public attributes / setters (step size, Hamiltonian "
+              "object or its tensors, configuration object or its fields): the step is the scheme's step for the values the object holds at that "
+              "time, and the object reports the step size it was set to"),
         ("V", "relative to the state the CALLER handed over (with or without an orthogonality centre, centre anywhere, either split mode): the "
               "integrator starts from the same state vector, keeps identifiers / relations and - fixed rank - every tensor shape of the given "
               "state after every step and after reset_to_initial_state + step; the kept bond dimensions of the rank-adaptive variant equal "
@@ -1330,6 +1466,55 @@ class C09(Prop):
                 c["prep"] = [[rng.randrange(n), rng.choice(["keep", "reduced"])]]
             c["reset"] = rng.random() < 0.15
             cases.append(c)
+        # ---- the driver OBJECT is reconfigured between steps through its public attributes / setters: the step size by
+        # set_num_time_steps_constant_final_time (also after set_num_time_steps changed the final time; rejected calls with
+        # k <= 0 leave it as it was), the Hamiltonian by an in-place change of the TTNO the caller handed in (a quench), by
+        # TTNO.replace_tensor, by re-assigning ev.hamiltonian (another Hamiltonian / a modified deep copy), the
+        # configuration by re-assigning ev.config or one of its fields.  Every step has to be the scheme's step for what
+        # the object holds AT THAT TIME.  Generic bonds, so that the step-equality clause applies.
+        ntr = [None, None, None, [2, "-inf", "-inf", False], [3, "-inf", "-inf", False], [100, 1e-2, 1e-3, False],
+               [100, 0.0, 0.05, True], [4, 1e-3, 1e-3, False], [3, "-inf", 1e-12, True]]
+        for _ in range(ctx.scale(30, 400) * budget_scale):
+            k = rng.choice([2, 3, 3, 4, 4, 5, 6])
+            par = util.random_parents(rng, k)
+            n = len(par)
+            method = rng.choice(["bug", "fbug"])
+            phys = [rng.choice([2, 3] if n <= 5 else [2]) for _ in range(n)]
+            bond = feasible_bonds_fix(par, phys, feasible_bonds(rng, par, phys, rng.choice([2, 2, 3])))
+            nsteps = rng.choice([1, 2, 2, 3]) if n <= 5 else rng.choice([1, 2])
+
+            def one_op():
+                what = rng.choice(["dt", "dt", "dt", "ham", "ham", "ham", "config", "reject"])
+                if what == "dt":
+                    ops = []
+                    if rng.random() < 0.3:
+                        ops.append(["steps", rng.choice([1, 2, 3, 5, 8])])
+                    ops.append(["steps_const", rng.choice([1, 2, 3, 4, 5, 7, 10, 20])])
+                    return ops
+                if what == "reject":
+                    return [["steps_const", rng.choice([-1, -3, 0])]]
+                if what == "ham":
+                    f = rng.choice([0.5, 2.0, -1.0, 0.25, 3.0, -0.5, 1.5])
+                    sub = rng.choice(["ham_inplace", "ham_inplace", "ham_replace", "ham_assign", "ham_assign_copy"])
+                    if sub in ("ham_inplace", "ham_replace"):
+                        return [[sub, rng.randrange(n), f]]
+                    if sub == "ham_assign":
+                        return [[sub, rng.randrange(10 ** 9)]]
+                    return [[sub, f]]
+                if rng.random() < 0.5:
+                    return [["config", rng.choice(ntr), rng.random() < 0.5]]
+                return [rng.choice([["config_field", "max_bond_dim", rng.choice([1, 2, 3])], ["config_field", "deep", rng.random() < 0.5]])]
+            reconf = {}
+            for s_ in range(nsteps):
+                if rng.random() < 0.65:
+                    reconf[str(s_)] = one_op() + (one_op() if rng.random() < 0.3 else [])
+            if not reconf:
+                reconf[str(rng.randrange(nsteps))] = one_op()
+            cases.append({"kind": "step", "parents": par, "phys": phys, "bond": {str(k): v for k, v in bond.items()},
+                          "seed": rng.randrange(10 ** 9), "method": method, "dt": rng.choice([0.02, 0.05, 0.1, 0.25]),
+                          "nsteps": nsteps, "nterms": max(2, 2 * n), "support": rng.choice([2, 2, 3]),
+                          "coeffs": rng.random() < 0.3, "flavour": "generic", "padzero": False,
+                          "trunc": rng.choice(ntr) if method == "bug" else None, "src": "reconfigured", "reconf": reconf})
         return cases
 
     def nontrivial(self, case):
@@ -1349,6 +1534,11 @@ class C09(Prop):
                 c["given state: centre " + ("at the root" if root_only else "below the root") + " (" + "+".join(p[1] for p in x["prep"]) + ")"] += 1
             if x.get("reset"):
                 c["history: reset_to_initial_state + step"] += 1
+            if x.get("reconf"):
+                c["history: driver object reconfigured between steps"] += 1
+                for ops in x["reconf"].values():
+                    for op in ops:
+                        c["reconfiguration: " + ("steps_const (rejected, k<=0)" if (op[0] == "steps_const" and op[1] <= 0) else op[0])] += 1
             if x.get("grade"):
                 c["given state: graded Schmidt spectra"] += 1
             if x.get("gauge") or x.get("norm10"):
@@ -1473,6 +1663,14 @@ class C09(Prop):
                 return f"{tag}: evolves the caller's object in place"
             for s, st in enumerate(run["steps"]):
                 w = f"{tag} step {s}"
+                # what the object was told by the time of this step (histories with a reconfigured driver object; otherwise
+                # the values of the construction)
+                H = st["H"] if st.get("H") is not None else ob["H"]
+                Hn = max(st.get("Hnorm", ob["Hnorm"]), 1e-300)
+                trunc = st.get("trunc_t", ob["trunc_t"])
+                dt_s = st.get("dt", case["dt"])
+                if case.get("reconf"):
+                    w += f" [after the reconfigurations {[case['reconf'].get(str(j)) for j in range(s + 1)]}]"
                 if "exception" in st:
                     risk = st["pull_risk"]
                     extra = f" [pull-shape: non-leaf {risk} has a parent leg above the parent-side dimension]" if (risk and "NotCompatibleException" in st["exception"] and not fixed) else ""
@@ -1531,8 +1729,12 @@ class C09(Prop):
                 for (nd, eig, nrm, herm, dtt, fw) in st["numeric"]:
                     if herm > 1e-8 * Hn * max(1, len(eig)) and st["defect0"] <= 1e-8:
                         return f"{w}: effective Hamiltonian at {nd} is not Hermitian ({herm:.2e})"
-                    if dtt != case["dt"] or not fw:
-                        return f"{w}: node {nd} evolved for {dtt} forward={fw}"
+                    if (dtt != dt_s and (not case.get("reconf") or abs(dtt - dt_s) > 1e-12 * abs(dt_s))) or not fw:
+                        return f"{w}: node {nd} evolved for {dtt} forward={fw}, the step size of the object is {dt_s}"
+                if "dt_reported" in st and abs(st["dt_reported"] - dt_s) > 1e-12 * abs(dt_s):
+                    return f"{w}: the object reports the step size {st['dt_reported']}, it was set to {dt_s}"
+                if case.get("reconf"):
+                    self._stats["history: step after a reconfiguration of the driver object"] += 1
                 # --- conservation
                 na = float(np.linalg.norm(aug["psi"]))
                 e0 = float(np.real(np.vdot(psi0.reshape(-1), H @ psi0.reshape(-1))))
@@ -1593,7 +1795,7 @@ class C09(Prop):
                     self._stats["step-equality skipped (non-generic)"] += 1
                 # --- saturated two-node case: exact
                 if case["kind"] == "two" and s == 0:
-                    exact = expm_herm_apply(H, case["dt"], psi0.reshape(-1)).reshape(psi0.shape)
+                    exact = expm_herm_apply(H, dt_s, psi0.reshape(-1)).reshape(psi0.shape)
                     d = float(np.linalg.norm(exact - psi1))
                     if d > 1e-8 * scale:
                         return f"{w}: saturated two-node step is not exact (deviation {d:.3e})"
